@@ -40,6 +40,17 @@ ASSUMPTIONS = [
     "no four cocircular, well inside the triangulation frame",
 ]
 E_RADIUS = 1
+_DS = "mesa/discrete_space/"
+# the source functions the Gallina model transcribes (harness/fingerprint.py: a change escalates the search)
+SOURCE_FUNCS = [
+    (_DS + "cell.py", "Cell.connect"), (_DS + "cell.py", "Cell.neighborhood"), (_DS + "cell.py", "Cell.get_neighborhood"),
+    (_DS + "cell.py", "Cell._neighborhood"),
+    (_DS + "grid.py", "Grid.__init__"), (_DS + "grid.py", "Grid._connect_cells"), (_DS + "grid.py", "Grid._connect_single_cell_nd"),
+    (_DS + "grid.py", "Grid._connect_single_cell_2d"), (_DS + "grid.py", "OrthogonalMooreGrid"),
+    (_DS + "grid.py", "OrthogonalVonNeumannGrid"), (_DS + "grid.py", "HexGrid"),
+    (_DS + "network.py", "Network"),
+    (_DS + "voronoi.py", "Delaunay"), (_DS + "voronoi.py", "VoronoiGrid.__init__"), (_DS + "voronoi.py", "VoronoiGrid._connect_cells"),
+]
 MAX_MODEL_CONNS = 1400    # connection-table entries above which a history is checked by the oracle only
 
 
@@ -182,6 +193,8 @@ def _grid_case(rng, kind, dims, torus, nq):
     ops = [["build"]] + _queries(rng, ncells, rmax, nq)
     if rng.random() < 0.15:
         ops.insert(rng.randrange(1, len(ops) + 1), ["build"])
+    if rng.random() < 0.05:
+        ops.append(["cert"])  # not a Voronoi space: no-op
     if rng.random() < 0.1:
         ops.append(["nbhd", 0, ncells + rng.randint(0, 2), 1, False])  # no such cell: no-op
     return {"space": {"kind": kind, "dims": list(dims), "torus": torus}, "ops": ops}
@@ -254,7 +267,7 @@ def _rand_points(rng, n, lim=20):
 def _vor_case(rng, n=None):
     n = n or rng.choice([1, 2, 3, 3, 4, 4, 5, 5, 6, 6, 7, 8, 9, 10])
     pts = _rand_points(rng, n, rng.choice([6, 12, 20]))
-    ops = [["build"]] + _queries(rng, len(pts), 3, rng.randint(1, 4))
+    ops = [["build"], ["cert"]] + _queries(rng, len(pts), 3, rng.randint(1, 4))
     return {"space": {"kind": "vor", "pts": pts}, "ops": ops}
 
 
@@ -472,11 +485,57 @@ def _ball(conn, c, r):
     return seen
 
 
+_UNCACHED = None
+
+
+def _inner_uncached():
+    """True when T1 finds Cell._neighborhood without functools.cache (model then recurses without memo)"""
+    global _UNCACHED
+    if _UNCACHED is None:
+        try:
+            import os
+            import sys
+
+            sys.path.insert(0, os.path.join(os.path.dirname(os.path.dirname(os.path.abspath(__file__))), "tables"))
+            import grid_geom
+
+            _UNCACHED = ": option (list cparam) := None" in grid_geom.c_inner_cache()
+        except Exception:  # noqa: BLE001  translator broken: reported by the framework, nothing to add here
+            _UNCACHED = False
+    return _UNCACHED
+
+
+def _model_affordable(case, conn):
+    """cost bound for the vm_compute evaluation: sum over queries of (max degree)^radius when nothing is memoised"""
+    nconn = sum(len(x) for x in conn)
+    if nconn > MAX_MODEL_CONNS:
+        return False
+    if not _inner_uncached():
+        return True
+    deg = max([len(x) for x in conn] + [1])
+    cost = 0
+    for op in case["ops"]:
+        if op[0] == "nbhd" and op[3] >= 1:
+            cost += deg ** min(op[3], 12)
+    return cost <= 200000
+
+
 def run_impl(case):
     sp = case["space"]
     cls = _CLS[sp["kind"]]
+    import signal
+
+    def _alarm(signum, frame):
+        raise TimeoutError("construction did not finish within 20 s")
+
     try:
-        space = _make_space(sp)
+        old_handler = signal.signal(signal.SIGALRM, _alarm)
+        signal.setitimer(signal.ITIMER_REAL, 20)
+        try:
+            space = _make_space(sp)
+        finally:
+            signal.setitimer(signal.ITIMER_REAL, 0)
+            signal.signal(signal.SIGALRM, old_handler)
     except Exception as e:  # noqa: BLE001  the space cannot even be built: every operation fails
         n = len(case["ops"])
         return {"obs": [[-1, 99]] * n, "ops_for_model": [list(o) for o in case["ops"]], "model": False,
@@ -501,6 +560,28 @@ def run_impl(case):
                 if not built:
                     _check_connections(sp, space, cells, idx, failures, opi)
                 built = True
+                continue
+            if kind == "cert":
+                # the triangulation the implementation built, exported for validation inside Coq
+                if sp["kind"] != "vor":
+                    obs.append([-2])
+                    ops_for_model.append(["cert", []])
+                    continue
+                tris = [[int(v) for v in t] for t in space.triangulation.export_triangles()]
+                ops_for_model.append(["cert", tris])
+                edges = sorted({min(a, b) * 1000 + max(a, b) for t in tris for a, b in itertools.combinations(t, 2)})
+                obs.append([1] + edges)
+                pts = [tuple(p) for p in sp["pts"]]
+                bad = [t for t in tris if len(set(t)) != 3 or not all(0 <= v < len(pts) for v in t)
+                       or _orient(*(pts[v] for v in t)) == 0
+                       or any(_strictly_inside(pts[t[0]], pts[t[1]], pts[t[2]], p) for p in pts)]
+                want = _delaunay_edges(pts) if len(pts) != 2 else set()
+                have = {(min(a, b), max(a, b)) for t in tris for a, b in itertools.combinations(t, 2)}
+                if bad or have != want:
+                    failures.append({"key": "C07/VoronoiGrid/triangulation/not-delaunay", "op": opi,
+                                     "what": f"VoronoiGrid({sp['pts']}).triangulation.export_triangles() = {tris}: "
+                                             + (f"triangle(s) {bad} are degenerate or have a centroid strictly inside their circumcircle"
+                                                if bad else f"their edges {sorted(have)} are not the Delaunay edges {sorted(want)}")})
                 continue
             ops_for_model.append(op)
             c = op[2] if kind == "nbhd" else op[1]
@@ -564,7 +645,7 @@ def run_impl(case):
             obs.append([-1, 99])
             failures.append({"key": f"C07/{cls}/{kind}/unexpected-exception", "op": opi,
                              "what": f"{op} raised {type(e).__name__}: {e}"})
-    return {"obs": obs, "failures": failures, "ops_for_model": ops_for_model, "model": nconn <= MAX_MODEL_CONNS}
+    return {"obs": obs, "failures": failures, "ops_for_model": ops_for_model, "model": _model_affordable(case, conn)}
 
 
 # ================================================================== model side
@@ -590,6 +671,9 @@ def coq_case(case):
         if op[0] == "build":
             tbl = op[1] if len(op) > 1 else []
             ops.append("Build " + L.lst([_zl(row) for row in tbl]))
+        elif op[0] == "cert":
+            tris = op[1] if len(op) > 1 else []
+            ops.append("Cert " + L.lst([f"({L.z(t[0])}, {L.z(t[1])}, {L.z(t[2])})" for t in tris]))
         elif op[0] == "nbhd":
             ops.append(f"Nbhd {L.z(op[1])} {L.z(op[2])} {L.z(op[3])} {L.b(op[4])}")
         else:
